@@ -25,6 +25,6 @@ m = dict(version=1,
                     baseline_off_cmd='meson test -C /repo/_build', source_commits=[], add_only=True),
          engines=[dict(name='vp', path='vp/', serves_properties=sorted(CLAIMS), kind_free_text='AST-guided extraction of the real hep-mc functions to C on every run; CBMC 6.11 code contracts (goto-instrument --dfcc, loop contracts) with cadical/cvc5; loop-free integer/real fragments by our WP generator to SMT-LIB (z3, z3-new, cvc5); native replay on the real templates')],
          checks=checks, not_applicable=na,
-         notes='contract-based deductive verification: contracts live in /verif/specs, keyed by function and loop ordinal, and are spliced into C text extracted mechanically from /repo/include on every run (vp/extract.py lists the only syntax rewrites). exit 2 = no verdict (extraction/compile problem, timeout, vacuity alarm); never a VIOLATION. Solver verdicts are memoised in out/cache, keyed by the exact extracted text (re-extracted from /repo on every run) + prelude + job: with the cache a check takes 2-40 s, without it the slowest jobs need 10-25 min on 16 cores (vegas_refine_pdf, vegas_pdf_ctor, multi_channel_iteration, vegas_iteration); VP_NOCACHE=1 disables reuse. thorough = quick + the float instantiation of 12 jobs, never stops at the first failure.')
+         notes='contract-based deductive verification: contracts live in /verif/specs, keyed by function and loop ordinal, and are spliced into C text extracted mechanically from /repo/include on every run (vp/extract.py lists the only syntax rewrites). exit 2 = no verdict (extraction/compile problem, timeout, vacuity alarm); never a VIOLATION. Solver verdicts are memoised, keyed by the SHA-256 of the exact translation unit extracted from /repo on this run + the prelude headers it includes + the job definition: verdicts/ (committed, written by vp/freeze_verdicts.py from a complete run of all checks on the committed tree) and out/cache (local). A verdict is reused only for a byte-identical verification problem - on the unchanged tree a check therefore takes 2-40 s and its evidence marks every reused job; any change to a function under contract, a spec or the prelude gives another key and the solvers run on it (cold costs on 16 cores: vegas_refine_pdf 17 min, multi_channel_iteration 15 min, vegas_iteration 11 min, vegas_pdf_ctor 6 min, everything else < 4 min; a failing obligation is normally reported earlier because a --stop-on-fail run races the full run). VP_NOCACHE=1 re-runs every solver; VP_NO_COMMITTED_VERDICTS=1 ignores verdicts/. thorough = quick + the float instantiation of 12 jobs, never stops at the first failure.')
 json.dump(m, open(os.path.join(ROOT, 'MANIFEST.json'), 'w'), indent=1)
 print('manifest: %d checks, %d not applicable' % (len(checks), len(na)))
